@@ -23,6 +23,16 @@ func run(c *core.Ctx) {
 	if kit.ModelCheck(c, "SecureChannel.tla", mc, tlc.Options{Workers: 16, Timeout: 20 * 60e9}) == nil {
 		return
 	}
+	if c.Thorough() {
+		// the unbounded-counter argument: the sender half for one direction, any MaxCtr (TLAPS), cross-checked by TLC
+		if kit.ModelCheck(c, "NonceInd.tla", "MC_NonceInd.cfg", tlc.Options{Workers: 4}) == nil {
+			return
+		}
+		if kit.Prove(c, "NonceInd.tla") == 0 {
+			return
+		}
+		c.Assume("NonceInd.tla is the projection of SecureChannel.tla's sender onto (sCtr, sIV, used) of one direction: receiver, wire and adversary never write these variables")
+	}
 	raws := kit.Generate(c, "Gen_SecureChannel.tla", "Gen_C12_quick.cfg", tlc.Options{})
 	n := "num=150"
 	if c.Thorough() {
